@@ -33,6 +33,10 @@ def accepting : BlobClass → Bool
   | .dataAccepted _ => true
   | _ => false
 
+theorem accepting_eq_false_iff (c : BlobClass) :
+    accepting c = false ↔ (∀ sh, c ≠ .hdrAccepted sh) ∧ (∀ sd, c ≠ .dataAccepted sd) := by
+  cases c <;> simp [accepting]
+
 /-- **complete description of the hand-off** -/
 theorem handleBlobs_eq (p : Bytes) (da : Nat) :
     ∀ (bs : List (Bytes × Oracle)) (n : RNode) (evs : List Event),
